@@ -8,6 +8,8 @@ RULE = ("operation histories of length <= 40 from the empty list: append, insert
         "applied through two aliases; contents and length printed after every step; 15% of the operations are invalid "
         "(bad position, non-number position, non-list argument, wrong arity) and must stop with an error. A Python list "
         "is the sequence oracle (via the structured semantics); compared with the Lean model as well. "
+        "Concatenation operands from every source (variable, group, container slot, record field, identity / builder / getter "
+        "function results) followed by fresh allocations by every route: the operands stay what they were. "
         "Non-trivial: the history has an insert or remove at an interior position.")
 ASSUMPTIONS = []
 default_compare = lambda m, i: C.compare_run(m, i)
@@ -88,4 +90,8 @@ def cases(rng, tier, stats):
     sc = self_concat_family(rng)
     out += sc
     stats["self_concat_family"] = len(sc)
+    from props.C06 import operand_provenance_family
+    op = operand_provenance_family(rng)
+    out += op
+    stats["operand_provenance_family"] = len(op)
     return out
